@@ -65,12 +65,14 @@ CLAIMS = {
             AX + 'hand-written model lib/GraphModel.v (dictionaries in insertion order, slice writes as pointwise block writes) validated on every run by an EXACT integer correspondence against graph.py; spsolve is not modelled (theorems quantify over every increment / every solution of H dx = -b); lil_matrix, dict order and set membership are modelled, not verified.',
             'Coq proof over hand-written model (with the C03 assembly theorem) + exact integer correspondence + oracle on singular/diverging runs'),
     'C07': ('proof',
-            'PARTIAL. Theorem C07 (coq/props/C07.v): for all 8 regenerated edge programs the error (hence chi2) is unchanged when every '
+            'Theorem C07 (coq/props/C07.v): for all 8 regenerated edge programs the error (hence chi2) is unchanged when every '
             'vertex is left-composed with one rigid transform (unit quaternions for SE(3); landmark points moved by the action); boxplus commutes with '
-            'the transform; the Jacobians of the transformed edges equal those of the original for pose slots (by uniqueness of the derivative '
-            'from C01); and for an abstract iteration whose linearisation is invariant, iterate k of the transformed graph is the transform of iterate k '
-            'for ANY solver that is a function of the linearised system (induction over iterations). NOT proved: the landmark-slot case of the '
-            'trajectory (H\' = P^T H P with the rotation of T), covered only by the metamorphic oracle on the implementation.',
+            'the transform (landmarks: d\' = R_T d); Jacobians of the transformed edges: pose slots J\' = J (SE(3) by uniqueness of the derivative from C01, '
+            'SE(2) as matrices with no side condition), landmark slots J\' = J R_T^-1 with R_T R_T^-1 = I; graph level (lib/GNSpec.v): for ANY per-vertex change '
+            'of tangent basis J\' = J Q with Q P = I, every solution d of the normal equations gives the solution P d of the re-based system and chi2 is '
+            'unchanged (basis_change_inv, via the C04 gradient-shift lemma); two abstract trajectory theorems (solver = function of an invariant '
+            'linearisation; solver = any map returning a solution of a uniquely solvable system, with transformed increments). Not formalised: the '
+            'instantiation gluing edge level to graph level, and solution uniqueness is a hypothesis; the metamorphic oracle covers the composition.',
             AX + TR + 'Over exact reals; floating-point agreement of trajectories is tested by the oracle with magnitude-aware tolerances.',
             'Coq proof over regenerated model (ring identities, uniqueness of derivative, induction over iterations) + metamorphic oracle'),
     'C08': ('proof',
